@@ -40,6 +40,9 @@ def _skip(ck, r, oid):
     if "worker_error" in r:
         ck.oblig(f"{oid}({r['name']})", "E", "undecided", detail=f"worker error {r['worker_error'][:2]}")
         return True
+    if "skipped" in r:
+        ck.extra["designs_outside_bound"] = ck.extra.get("designs_outside_bound", 0) + 1
+        return True
     return False
 
 
@@ -125,7 +128,8 @@ def c02(tier):
                "documented copy multiplicity of weighted uncrossed levels); the same for the projected model set of the compiled formula "
                "(tier S). Links proved by pyvc.wp/concolic: blocking-clause exactness is C27, cardinality encodings C10.")
     ds = SC.design_space(tier, seed())
-    res = SC.run(ds, ["sets", "cnf", "IterateSATGen"], dict(n=4000 if tier == "quick" else 20000, model_limit=4000 if tier == "quick" else 20000))
+    res = SC.run(ds, ["sets", "cnf", "IterateSATGen"], dict(n=4000 if tier == "quick" else 20000, model_limit=4000 if tier == "quick" else 20000,
+                              space_limit=60_000 if tier == "quick" else 400_000), timeout=45 if tier == "quick" else 300)
     byname = {d["name"]: d for d in ds}
     for r in res:
         d = byname[r["name"]]
@@ -227,7 +231,7 @@ def c07(tier):
                "Relational contract, no oracle: for every design of D accepted by both, the exhausted IterateSATGen set equals the exhausted "
                "RandomGen set, compared by level names.")
     ds = SC.design_space(tier, seed())
-    res = SC.run(ds, ["IterateSATGen", "RandomGen"], dict(n=3000 if tier == "quick" else 15000), timeout=60 if tier == "quick" else 240)
+    res = SC.run(ds, ["IterateSATGen", "RandomGen"], dict(n=3000 if tier == "quick" else 15000, space_limit=60_000 if tier == "quick" else 400_000), timeout=45 if tier == "quick" else 240)
     byname = {d["name"]: d for d in ds}
     lim = 3000 if tier == "quick" else 15000
     for r in res:
@@ -271,7 +275,7 @@ def c08(tier):
            budget_ms(tier), prefix="C08.safety.")
     ds = SC.design_space(tier, seed(), random_n=80 if tier == "quick" else 600)
     strats = ["IterateSATGen", "RandomGen"] + (["CMSGen", "UniGen"] if tier == "thorough" else [])
-    res = SC.run(ds, strats, dict(n=3), timeout=60)
+    res = SC.run(ds, strats, dict(n=3, space_limit=10**7), timeout=45)
     byname = {d["name"]: d for d in ds}
     for r in res:
         d = byname[r["name"]]
